@@ -2,13 +2,15 @@
 from __future__ import annotations
 
 CONTRACTS = {}
+ALL = []
 
 
 def contract(target, **kw):
     def deco(cls):
         cls._target = target
         cls._meta = kw
-        CONTRACTS[target] = cls
+        CONTRACTS.setdefault(target, cls)
+        ALL.append((target, cls))
         return cls
     return deco
 
